@@ -23,6 +23,8 @@ FORMULAS = [
     # one factor in several terms that are coded differently (term x sum products)
     "y ~ 0 + f*(x + z)", "y ~ f*(x + z)", "y ~ 0 + f*(g + x)", "y ~ f*(g + x)", "y ~ 0 + (g + x)*f", "y ~ 0 + f/(x + z)", "y ~ 0 + f + f:x + f:z",
     "y ~ 0 + C(k)*(x + f)", "y ~ 0 + g + f:(x + g)",
+    # interactions of three and four factors with unequal numbers of columns: the order in which the factors' new data are folded
+    "y ~ 0 + f:g:x", "y ~ 0 + g:f:x", "y ~ f*g*x", "y ~ 0 + f:g:c1", "y ~ 0 + f:g:x:z", "y ~ (0 + f:x|g)",
     # one effect expression distributed over two grouping factors, coded differently for each (reduced next to (1|g), full for h)
     # integer columns of a narrow dtype whose product does not fit it, and 64-bit integers no double represents: new data are computed
     # exactly as the training data were
